@@ -442,6 +442,34 @@ def perm_worker(job):
             lwant = ('no-port-forwarding' not in auth_opts) and cert_allows and app_allow
             if lwant != (lres == 'listening'):
                 viol.append(('listen-permission', 'tcpip-forward %s, expected %s' % (lres, 'listening' if lwant else 'refused')))
+            # the same credential and application answer decide UNIX-domain forwarding in both directions
+            if dest == ('b.example', 80):
+                w.run(w.loop.create_unix_server(lambda: End('BU', w.ends), '/vdest'))
+                nlog = len(w.loop.connect_log)
+
+                async def ugo():
+                    try:
+                        r, wr = await w.pair.c.open_unix_connection('/vdest')
+                        return 'opened'
+                    except asyncssh.ChannelOpenError as exc:
+                        return 'refused:%d' % exc.code
+                ures = w.run(ugo())
+                uattempt = any(k == 'unix' for k, _p, _ok in w.loop.connect_log[nlog:])
+                uwant = ('no-port-forwarding' not in auth_opts) and cert_allows and app_allow
+                if uwant != (ures == 'opened'):
+                    viol.append(('unix-forward-permission', 'direct-streamlocal %s, expected %s' % (ures, 'opened' if uwant else 'refused')))
+                if not uwant and uattempt:
+                    viol.append(('forbidden-destination-contacted', 'a connection to /vdest was attempted'))
+
+                async def ulisten():
+                    try:
+                        l = await w.pair.c.forward_remote_path('/vrlisten', '/vdest')
+                        return 'listening' if l else 'refused'
+                    except asyncssh.ChannelListenError:
+                        return 'refused'
+                ulres = w.run(ulisten())
+                if uwant != (ulres == 'listening'):
+                    viol.append(('unix-listen-permission', 'streamlocal-forward %s, expected %s' % (ulres, 'listening' if uwant else 'refused')))
             w.pair.c.close()
             w.loop.flush_all()
             if w.loop.unretrieved():
@@ -450,7 +478,7 @@ def perm_worker(job):
             viol.append(('livelock', str(exc)))
         finally:
             w.close()
-        acc.add(core.digest((auth_opts, cert_mode, app_allow, dest)), transitions=2,
+        acc.add(core.digest((auth_opts, cert_mode, app_allow, dest)), transitions=4 if dest == ('b.example', 80) else 2,
                 sample={'authorized_keys_options': auth_opts, 'cert': cert_mode, 'app_allows': app_allow, 'dest': list(dest)}
                 if 'permitopen' in auth_opts and cert_mode == 'cert-permit' and app_allow and dest == ('b.example', 81) else None)
         for k, d in viol:
@@ -849,7 +877,7 @@ def main(tier, seed):
             'early (so data and EOF arrive before the channel is confirmed), cut the SSH connection or close the '
             'listener; DFS bound 1 (2 for local forwarding in quick, everything in thorough); permission matrix of 6 '
             'authorized_keys option sets x {no certificate, certificate with / without permit-port-forwarding} x '
-            'application answer x 3 destinations for direct-tcpip and tcpip-forward; SOCKS requests: 5 valid forms, '
+            'application answer x 3 destinations for direct-tcpip and tcpip-forward (and direct-streamlocal / streamlocal-forward); SOCKS requests: 5 valid forms, '
             'every truncation, byte-at-a-time delivery and single-byte field variations vs a reference parser; listen '
             'requests {local, SOCKS, remote} for a name with 1-3 addresses x which address is already taken x how '
             'the listener ends {closed, either connection closed, connection lost}: nothing left bound; two forwards '
